@@ -63,6 +63,13 @@ func (plugin *RetryPlugin) OnResponse(
 				attemptsLeft:        remedyConfig.Attempts,
 				nextCooldownSeconds: remedyConfig.InitialCooldownSeconds,
 			}
+		} else if retryState.attemptsLeft < 1 {
+			// All attempts were used. The state is kept until this point (and not
+			// deleted together with the last retry) because a retried transaction
+			// may carry the sequence ID as its own ID (x-lunar-req-id is re-sent by
+			// the interceptors) and would otherwise be taken for a new sequence.
+			plugin.cache.Del(onResponse.SequenceID)
+			return &actions.NoOpAction{}, nil
 		}
 
 		lunarRetryAfterValue := fmt.Sprint(retryState.nextCooldownSeconds)
@@ -82,18 +89,14 @@ func (plugin *RetryPlugin) OnResponse(
 			transactionTimeoutSec +
 			networkTimeBufferSec
 
-		if updatedRetryState.attemptsLeft < 1 {
-			plugin.cache.Del(onResponse.SequenceID)
-		} else {
-			err := plugin.cache.Set(
-				onResponse.SequenceID,
-				updatedRetryState,
-				float64(ttlSec),
-			)
-			if err != nil {
-				log.Warn().
-					Msgf("Failed to cache: %v", err)
-			}
+		err := plugin.cache.Set(
+			onResponse.SequenceID,
+			updatedRetryState,
+			float64(ttlSec),
+		)
+		if err != nil {
+			log.Warn().
+				Msgf("Failed to cache: %v", err)
 		}
 
 		log.Debug().
